@@ -76,16 +76,6 @@ impl MT942 {
     pub fn parse_from_block4(block4: &str) -> Result<Self, crate::errors::ParseError> {
         let mut parser = crate::parser::MessageParser::new(block4, "942");
 
-        // Parse mandatory fields in flexible order
-        // Field 13D might appear first due to HashMap ordering issues
-
-        // Check if Field 13D appears early (out of standard order)
-        let field_13d_early = if parser.detect_field("13D") {
-            Some(parser.parse_field::<Field13D>("13D")?)
-        } else {
-            None
-        };
-
         // Parse fields in standard order
         let field_20 = parser.parse_field::<Field20>("20")?;
         let field_21 = parser.parse_optional_field::<Field21NoOption>("21")?;
@@ -96,12 +86,8 @@ impl MT942 {
         let floor_limit_debit = parser.parse_field::<Field34F>("34F")?;
         let floor_limit_credit = parser.parse_optional_field::<Field34F>("34F")?;
 
-        // Parse Field 13D if not already parsed
-        let field_13d = if let Some(early_13d) = field_13d_early {
-            early_13d
-        } else {
-            parser.parse_field::<Field13D>("13D")?
-        };
+        // Parse date/time indication
+        let field_13d = parser.parse_field::<Field13D>("13D")?;
 
         // Enable duplicate field handling for statement lines
         parser = parser.with_duplicates(true);
